@@ -12,6 +12,7 @@ def short(s, n):
     return s if len(s) <= n else s[:n - 1].rsplit(" ", 1)[0] + " …"
 
 
+STR = json.load(open(os.path.join(ROOT, "tools_strengthening.json")))
 rows = []
 for d in sorted(glob.glob(os.path.join(ROOT, "seeded", "*"))):
     m = json.load(open(os.path.join(d, "meta.json")))
@@ -26,10 +27,19 @@ for d in sorted(glob.glob(os.path.join(ROOT, "seeded", "*"))):
                  short(m.get("needs_to_manifest", ""), 130),
                  "; ".join(keys[:1]) or ("caught" if v.get("caught")
                                          else "MISSED"),
-                 "yes" if v.get("missed_by_the_first_version_of_the_check")
-                 else ""))
-print("| change | what was changed | needs, to manifest | caught by (first "
-      "violation) | first version missed it |")
-print("|---|---|---|---|---|")
+                 STR.get(os.path.basename(d), "yes (see the property's other "
+                         "entries)")
+                 if v.get("missed_by_the_first_version_of_the_check")
+                 or os.path.basename(d) in STR else ""))
+out = ["| change | what was changed | needs, to manifest | caught by (first "
+       "violation key) | missed at first; what was added to the check |",
+       "|---|---|---|---|---|"]
 for r in rows:
-    print("| " + " | ".join(x.replace("|", "\\|") for x in r) + " |")
+    out.append("| " + " | ".join(x.replace("|", "\\|") for x in r) + " |")
+p = os.path.join(ROOT, "DESIGN.md")
+s = open(p).read()
+pat = re.compile(r"(<!-- gen:seeded -->\n).*?(<!-- /gen:seeded -->)", re.S)
+assert pat.search(s)
+s = pat.sub(lambda m: m.group(1) + "\n".join(out) + "\n" + m.group(2), s)
+open(p, "w").write(s)
+print(len(rows), "rows")
